@@ -33,6 +33,7 @@ type Config struct {
 	CliDirect bool   `json:"cli_direct,omitempty"`
 	SrvBuf    int    `json:"srv_buf,omitempty"`
 	CliBuf    int    `json:"cli_buf,omitempty"`
+	CtxCap    int    `json:"ctx_cap,omitempty"` // capacity of the context buffer the client passes to CallWithContext (0 = none)
 	SrvSpell  string `json:"srv_spell"` // names | funcs | both | listen
 	CliSpell  string `json:"cli_spell"` // names | funcs | both | dial | transport | client
 }
@@ -77,7 +78,7 @@ func (c Config) valid() bool {
 	if !in(c.Net, nets) || !in(c.Header, headers) || !in(c.Body, bodies) {
 		return false
 	}
-	if c.SrvBuf < 0 || c.CliBuf < 0 || c.SrvBuf > 4<<20 || c.CliBuf > 4<<20 {
+	if c.SrvBuf < 0 || c.CliBuf < 0 || c.SrvBuf > 4<<20 || c.CliBuf > 4<<20 || c.CtxCap < 0 || c.CtxCap > 4<<20 {
 		return false
 	}
 	if c.TLS && !c.real() {
@@ -140,6 +141,7 @@ func genConfig(t *rapid.T) Config {
 			CliPipe:   rapid.Bool().Draw(t, "cli_pipe"),
 			CliDirect: rapid.Bool().Draw(t, "cli_direct"),
 			SrvBuf:    rapid.SampledFrom(bufSizes).Draw(t, "srv_buf"),
+			CtxCap:    rapid.SampledFrom([]int{0, 0, 8, 64, 4096, 65536, 1 << 20}).Draw(t, "ctx_cap"),
 			CliBuf:    rapid.SampledFrom(bufSizes).Draw(t, "cli_buf"),
 			SrvSpell:  rapid.SampledFrom([]string{"funcs", "funcs", "names", "both", "listen"}).Draw(t, "srv_spell"),
 			CliSpell:  rapid.SampledFrom([]string{"funcs", "funcs", "names", "both", "dial", "transport", "client"}).Draw(t, "cli_spell"),
@@ -271,6 +273,7 @@ func enum(tier string, yield func(Case)) {
 						cfg.CliPipe = mode&2 != 0 && net != "ws"
 						cfg.CtxBuf = mode == 3 || mode == 5
 						cfg.NoCopy = (body == "json" || body == "xml") && mode == 6
+						cfg.CtxCap = []int{0, 64, 4096, 0, 1 << 20}[count%5]
 						cfg.SrvBuf = bufSizes[(count)%len(bufSizes)]
 						cfg.CliBuf = bufSizes[(count/2)%len(bufSizes)]
 						// cycle the spellings where they are available
@@ -834,6 +837,15 @@ func runOn(c Config, items []Item, workers int) (map[int]string, []string, strin
 	return results, ex, undecided
 }
 
+// callCtx returns the context of a CallWithContext call: with a caller-supplied buffer of the
+// configured capacity (a fresh one per call), or without.
+func callCtx(c Config) context.Context {
+	if c.CtxCap <= 0 {
+		return context.Background()
+	}
+	return context.WithValue(context.Background(), rpc.BufferContextKey, make([]byte, 0, c.CtxCap))
+}
+
 func connCaller(conn *rpc.Conn, c Config) caller {
 	if c.CliPipe {
 		conn.SetPipelining(true)
@@ -846,7 +858,7 @@ func connCaller(conn *rpc.Conn, c Config) caller {
 			<-call.Done
 			return call.Error
 		},
-		ctxCall: func(m string, a, r interface{}) error { return conn.CallWithContext(context.Background(), m, a, r) },
+		ctxCall: func(m string, a, r interface{}) error { return conn.CallWithContext(callCtx(c), m, a, r) },
 		roundTrip: func(m string, a, r interface{}) error {
 			call := conn.RoundTrip(&rpc.Call{ServiceMethod: m, Args: a, Reply: r, Done: make(chan *rpc.Call, 1)})
 			<-call.Done
@@ -882,7 +894,7 @@ func dialCaller(c Config, addr string, mem *kit.Net) (caller, error) {
 				return call.Error
 			},
 			ctxCall: func(m string, a, r interface{}) error {
-				return tr.CallWithContext(context.Background(), addr, m, a, r)
+				return tr.CallWithContext(callCtx(c), addr, m, a, r)
 			},
 			roundTrip: func(m string, a, r interface{}) error {
 				call := tr.RoundTrip(addr, &rpc.Call{ServiceMethod: m, Args: a, Reply: r, Done: make(chan *rpc.Call, 1)})
@@ -904,7 +916,7 @@ func dialCaller(c Config, addr string, mem *kit.Net) (caller, error) {
 				return call.Error
 			},
 			ctxCall: func(m string, a, r interface{}) error {
-				return client.CallWithContext(context.Background(), m, a, r)
+				return client.CallWithContext(callCtx(c), m, a, r)
 			},
 			roundTrip: func(m string, a, r interface{}) error {
 				call := client.RoundTrip(&rpc.Call{ServiceMethod: m, Args: a, Reply: r, Done: make(chan *rpc.Call, 1)})
@@ -989,7 +1001,7 @@ func run(c Case) kit.Outcome {
 	if c.Cfg.Body != reference.Body {
 		dims++
 	}
-	for _, b := range []bool{c.Cfg.TLS, c.Cfg.Poll, c.Cfg.SrvPipe, c.Cfg.SrvDirect, c.Cfg.CtxBuf, c.Cfg.NoCopy, c.Cfg.CliPipe, c.Cfg.CliDirect, c.Cfg.SrvBuf != 0, c.Cfg.CliBuf != 0} {
+	for _, b := range []bool{c.Cfg.TLS, c.Cfg.Poll, c.Cfg.SrvPipe, c.Cfg.SrvDirect, c.Cfg.CtxBuf, c.Cfg.NoCopy, c.Cfg.CliPipe, c.Cfg.CliDirect, c.Cfg.SrvBuf != 0, c.Cfg.CliBuf != 0, c.Cfg.CtxCap != 0} {
 		if b {
 			dims++
 		}
@@ -997,7 +1009,7 @@ func run(c Case) kit.Outcome {
 	out := kit.Outcome{Classes: []string{"net=" + c.Cfg.Net, "body=" + c.Cfg.Body, "header=" + c.Cfg.Header, "srv=" + c.Cfg.SrvSpell, "cli=" + c.Cfg.CliSpell}}
 	out.Counters = map[string]int{"excluded_known_finding_tls_with_poll": int(atomic.SwapInt64(&excludedTLSPoll, 0)), "excluded_known_finding_ws_with_poll": int(atomic.SwapInt64(&excludedWSPoll, 0))}
 	smallest := 65536
-	for _, b := range []int{c.Cfg.SrvBuf, c.Cfg.CliBuf} {
+	for _, b := range []int{c.Cfg.SrvBuf, c.Cfg.CliBuf, c.Cfg.CtxCap} {
 		if b > 0 && b < smallest {
 			smallest = b
 		}
@@ -1030,7 +1042,7 @@ func cut(s string) string {
 var prop = kit.Property[Case]{
 	ID:    "C12",
 	Level: "exploration",
-	Rule:  "rapid-generated (workload, configuration) pairs plus an enumerated sample of the configuration space: network in {frame link, in-memory byte link, inproc, tcp, unix, http, ws} x TLS x header encoder in {default, pb, code, json} x body codec in {json, xml, code, pb, msgp, bytes} (typed message per codec) x server {poll, pipelining, direct IO, context buffer, NoCopy for json/xml} x client {pipelining, direct IO} x buffer sizes {default, 64, 4096, 65536, 1 MiB} on both ends x how each end names its choice (Listen/Dial by name, Options with registered names, with constructor functions, with both where the name must win, Transport, Client). Workload: 10-60 items (calls to all four handler shapes in every call form, failing calls, unknown methods, pings, rounds on an echo stream; sizes 0..200 KB and one message larger than every configured buffer), sequential or from 2-4 workers (ws: sequential only). Oracle: the transcript - per item outcome class and reply digest or error text, plus the sorted multiset of handler executions (id, method, argument digest) - equals the transcript of the same workload on the reference configuration (frame link, default header, json body, no modes). Non-trivial: the configuration differs from the reference in >= 2 dimensions and the workload contains a message larger than the smallest configured buffer; distinct by SHA-1 of the case.",
+	Rule:  "rapid-generated (workload, configuration) pairs plus an enumerated sample of the configuration space: network in {frame link, in-memory byte link, inproc, tcp, unix, http, ws} x TLS x header encoder in {default, pb, code, json} x body codec in {json, xml, code, pb, msgp, bytes} (typed message per codec) x server {poll, pipelining, direct IO, context buffer, NoCopy for json/xml} x client {pipelining, direct IO} x buffer sizes {default, 64, 4096, 65536, 1 MiB} on both ends x caller-supplied context buffer {none, 8, 64, 4096, 65536, 1 MiB} x how each end names its choice (Listen/Dial by name, Options with registered names, with constructor functions, with both where the name must win, Transport, Client). Workload: 10-60 items (calls to all four handler shapes in every call form, failing calls, unknown methods, pings, rounds on an echo stream; sizes 0..200 KB and one message larger than every configured buffer), sequential or from 2-4 workers (ws: sequential only). Oracle: the transcript - per item outcome class and reply digest or error text, plus the sorted multiset of handler executions (id, method, argument digest) - equals the transcript of the same workload on the reference configuration (frame link, default header, json body, no modes). Non-trivial: the configuration differs from the reference in >= 2 dimensions and the workload contains a message larger than the smallest configured buffer; distinct by SHA-1 of the case.",
 	Assumptions: []string{
 		"message content is restricted to [a-z0-9] so that xml can carry it; xml/msgp/bytes have no registered name and are always given as constructor functions",
 		"NoCopy is combined only with non-aliasing codecs (json, xml) and non-retaining handlers, ws only with one call at a time (the property's provisos)",
